@@ -7,10 +7,18 @@
 
   The statement `macho_sign_then_verify_full` of C01_MachO.lean is FALSE as written (`not_macho_sign_then_verify_full`),
   for a reason that lies in the MODEL (its `loadLoop` is partial), not in relic.  The regularity conditions that relic
-  itself needs are collected in `Regular`; two of them are defect candidates in relic (`small`, `noSlack`), see the
-  comments of the fields.
+  itself needs are collected in `Regular`.
+
+  `sign` is the current tree.  Two former fields of `Regular` were genuine defects of relic and are now DERIVED from a
+  successful `sign`, since relic tests them itself:
+    noSlack  (F-MACHO-4, fixed in /repo bd2b0c4)  `regular_noSlack`  — `scanFile` refuses unused bytes behind the last load
+             command when a command is going to be added (`macho_slack_refused`); the old behaviour: `macho_slack_breaks_orig`
+    small    (F-MACHO-3, fixed in /repo 5805b39)  `regular_small`    — `Sign` refuses a fresh region above 10^7 bytes
+             (`macho_sign_refuses_oversize`, C01_MachOFull.lean); what remains is `oldSmall`: an EXISTING region that is big
+             enough is reused whatever its size, so it must itself be one the verifier reads (≤ 10^7 bytes).
 -/
 import Relic.Proofs.MachOSigned
+import Relic.Proofs.MachOGuards
 import Relic.Proofs.MachODemo
 import Relic.Props.C01_MachO
 namespace Relic.Props.C01
@@ -33,11 +41,6 @@ structure RegularImage (f : Bytes) (so : SignOut) : Prop where
   /-- at most one LC_CODE_SIGNATURE command, and its cmdsize is 16: the scanner records the LAST one, `readSigBlob`
       takes the FIRST one; `patchLoadCmd` writes `cmdsize = 16` over whatever size the command had. -/
   oneSig : ∀ e ∈ loadsOf f, e.2.1 = 0x1d → e.1 = so.plan.m.loadCsStart ∧ e.2.2 = 16
-  /-- (only when a command is added) the commands fill `sizeofcmds` exactly: `patchNcmd` puts the new command at
-      `header + sizeofcmds`, the parser looks for command number `ncmds + 1` behind the end of command `ncmds`.
-      DEFECT CANDIDATE in relic: with slack behind the last command the parser reads the new command from the slack. -/
-  noSlack : so.plan.m.loadCsStart = 0 →
-    hdrEndOf so.plan.m.magic + ((loadsOf f).map (fun e => e.2.2)).sum = so.plan.m.nextLc
   /-- the recorded __LINKEDIT command is LC_SEGMENT_64 exactly in a 64-bit image: `patchLinkEdit` picks the field
       layout by the file magic, `scanFile` reads the command by its own `cmd` -/
   leKind : rd32 so.plan.m.be f so.plan.m.lePos = 0x19 ↔ so.plan.m.is64 = true
@@ -47,18 +50,31 @@ structure RegularImage (f : Bytes) (so : SignOut) : Prop where
   /-- the end of code and the old signature lie inside the file (`scanFile` never looks at the file size) -/
   oldInside : so.plan.m.codeSize + so.plan.m.sigLen ≤ f.length
 
-/-- **Regular**: a regular image whose reserved signature region is not "unreasonably large" for the verifier -/
+/-- **Regular**: a regular image whose EXISTING signature region (if any) is not "unreasonably large" for the verifier.
+    (Trivially true for an unsigned image: `sigLen = 0`.) -/
 structure Regular (f : Bytes) (so : SignOut) : Prop extends RegularImage f so where
-  /-- DEFECT CANDIDATE in relic: `readSigBlob` refuses `length > 10e6` ("unreasonably large LC_CODE_SIGNATURE"),
-      `Sign` reserves `align8(codeSize·(20+hashSize)/4096 + |ent| + |req| + 16384)` bytes without upper limit: with
-      SHA-256 every image with `codeSize ≥ 786401832` (≈ 750 MiB; SHA-1: `≥ 1022322381`) is signed into a file relic's
-      own verifier refuses.  (The bound also keeps `uint32(sigStart)` / `uint32(sigSize)` in `patchLoadCmd` from
-      truncating: `MachO.cs_lt_of_small` — a reserved region of ≤ 10^7 bytes forces `codeSize + 8 < 2^32`; in the reuse
-      branch both numbers were read from 32-bit fields.  So no separate hypothesis is needed for the truncation.)
-      That the field is NEEDED is `MachO.large_signature_refused` (Proofs/MachOSigned.lean): for a `RegularImage` with
-      `10^7 < sigBufLen < 2^32` the signed file exists, its prefix is the hashed stream, and `locate` answers
-      `err "toolarge"`. -/
-  small : so.plan.po.sigBufLen ≤ 10000000
+  /-- `readSigBlob` refuses `length > 10e6` ("unreasonably large LC_CODE_SIGNATURE").  Since fix F-MACHO-3 `Sign` refuses
+      to RESERVE more than that (`sign_refuses_oversize`); but an old region that is at least as large as the estimate is
+      reused as it is (`markers.sigLen < estimatedSize && …` does not look at it), so an image that already carries a
+      region of more than 10^7 bytes — which relic's verifier refuses as it stands — is still signed into a file the
+      verifier refuses (`macho_reused_oversize_region_refused`).  In the fresh-region branch the field holds by itself
+      (`sigLen < estimate ≤ 10^7`).
+      (The bound also keeps `uint32(sigStart)` / `uint32(sigSize)` in `patchLoadCmd` from truncating:
+      `MachO.cs_lt_of_small`.) -/
+  oldSmall : so.plan.m.sigLen ≤ 10000000
+
+/-- **regular_noSlack** (the former field `noSlack`, finding F-MACHO-4): when a command is going to be added the commands
+    fill `sizeofcmds` exactly — `scanFile` has tested it -/
+theorem regular_noSlack (f : Bytes) (p : SignParams) (so : SignOut) (hs : sign f p = .ok so) (R : RegularImage f so) :
+    so.plan.m.loadCsStart = 0 →
+      hdrEndOf so.plan.m.magic + ((loadsOf f).map (fun e => e.2.2)).sum = so.plan.m.nextLc :=
+  scan_noSlack f so.plan.m (loadsOf f) (sign_inv' f p so hs).2.1 R.accepts
+
+/-- **regular_small** (the former field `small`, finding F-MACHO-3): the reserved region is at most 10^7 bytes — `Sign` has
+    tested the fresh one, `oldSmall` covers the reused one -/
+theorem regular_small (f : Bytes) (p : SignParams) (so : SignOut) (hs : sign f p = .ok so) (R : Regular f so) :
+    so.plan.po.sigBufLen ≤ 10000000 :=
+  sign_small f p so hs R.oldSmall
 
 /-- **macho_sign_then_locate.**  Both branches of `PatchSignature` (old region reused / fresh region with the header
     patched: LC_CODE_SIGNATURE appended, or an existing one overwritten — behind or in front of the __LINKEDIT command;
@@ -71,15 +87,16 @@ theorem macho_sign_then_locate (f : Bytes) (p : SignParams) (so : SignOut) (blob
       locate g = .ok (so.plan.po.sigStart, so.plan.po.sigBufLen) ∧
       g.take so.plan.po.sigStart = so.plan.stream ∧
       MachO.sliceOf g so.plan.po.sigStart so.plan.po.sigBufLen = blob ++ zeros (so.plan.po.sigBufLen - blob.length) := by
-  obtain ⟨g, h1, h2, h3, h4, _⟩ := sign_then_locate_core f p so blob (loadsOf f) hs R.accepts R.oneSig R.noSlack R.leKind
-    R.hdrBelow R.oldInside (Or.inl R.small) hb
-  exact ⟨g, h1, by rw [h2, sigAnswer_small _ _ R.small], h3, h4⟩
+  have hsmall := regular_small f p so hs R
+  obtain ⟨g, h1, h2, h3, h4, _⟩ := sign_then_locate_core f p so blob (loadsOf f) (sign_orig_of_sign f p so hs) R.accepts
+    R.oneSig (regular_noSlack f p so hs R.toRegularImage) R.leKind R.hdrBelow R.oldInside (Or.inl hsmall) hb
+  exact ⟨g, h1, by rw [h2, sigAnswer_small _ _ hsmall], h3, h4⟩
 
 /-- the code limit the signer puts into the code directory is the start of the signature region -/
 theorem macho_sign_limit (f : Bytes) (p : SignParams) (so : SignOut) (hs : sign f p = .ok so) (R : Regular f so) :
     so.signed.pages.limit = so.plan.po.sigStart := by
-  obtain ⟨g, _, _, _, _, h⟩ := sign_then_locate_core f p so [] (loadsOf f) hs R.accepts R.oneSig R.noSlack R.leKind
-    R.hdrBelow R.oldInside (Or.inl R.small) (Nat.zero_le _)
+  obtain ⟨g, _, _, _, _, h⟩ := sign_then_locate_core f p so [] (loadsOf f) (sign_orig_of_sign f p so hs) R.accepts R.oneSig
+    (regular_noSlack f p so hs R.toRegularImage) R.leKind R.hdrBelow R.oldInside (Or.inl (regular_small f p so hs R)) (Nat.zero_le _)
   exact h
 
 /-- **macho_sign_then_verify_regular**: the three conjuncts of `macho_sign_then_verify_full` under `Regular` -/
@@ -94,7 +111,7 @@ theorem macho_sign_then_verify_regular (f : Bytes) (p : SignParams) (so : SignOu
     refuses an image without __LINKEDIT, and the recorded command has `cmdsize ≥ 56` and ends inside the command area -/
 theorem macho_markers_derivable (f : Bytes) (p : SignParams) (so : SignOut) (hs : sign f p = .ok so) :
     so.plan.m.lePos ≠ 0 ∧ so.plan.m.lePos + 56 ≤ so.plan.m.nextLc := by
-  obtain ⟨_, _, _, hpl, _⟩ := sign_inv f p so hs
+  obtain ⟨_, _, _, hpl, _⟩ := sign_inv f p so (sign_orig_of_sign f p so hs)
   exact scan_lePos f _ (plan_inv f _ _ _ _ hpl).1
 
 /-! ### concrete images -/
@@ -104,65 +121,65 @@ open Demo in
 /-- non-vacuity of `macho_sign_then_locate`: the minimal image is signed and is `Regular` (fresh-region branch, a load
     command is added; 16392 bytes are reserved at offset 120) -/
 theorem macho_regular_demo : ∃ so, sign fGood p0 = .ok so ∧ Regular fGood so ∧ so.plan.po.sigStart = 120 ∧ so.plan.po.sigBufLen = 16392 := by
-  cases hso : sign fGood p0 with
+  cases hso : signOrig fGood p0 with
   | err e => have := sign_fGood_ok; rw [hso] at this; cases this
   | panic e => have := sign_fGood_ok; rw [hso] at this; cases this
   | diverge => have := sign_fGood_ok; rw [hso] at this; cases this
   | ok so =>
+    have hsn := signNew_of fGood mGood so hso scan_fGood scanNew_fGood (by decide +kernel) (by decide +kernel)
     obtain ⟨hm, F, HS⟩ := sign_fresh_facts fGood p0 so mGood hso scan_fGood (by decide +kernel)
     have e1 : so.plan.po.sigStart = 120 := by rw [F.sigStart]; decide +kernel
     have e2 : so.plan.po.sigBufLen = 16392 := by rw [F.sigBufLen]; decide +kernel
     have e3 : so.plan.po.newHeader.length = 120 := by rw [HS.len]; decide +kernel
-    refine ⟨so, rfl, ⟨⟨?_, ?_, ?_, ?_, ?_, ?_⟩, ?_⟩, e1, e2⟩
-    · rw [hm]; decide +kernel
+    refine ⟨so, hsn, ⟨⟨?_, ?_, ?_, ?_, ?_⟩, ?_⟩, e1, e2⟩
     · rw [hm]; decide +kernel
     · rw [hm]; decide +kernel
     · rw [hm]; decide +kernel
     · rw [hm, e3]; decide +kernel
     · rw [hm]; decide +kernel
-    · rw [e2]; decide
+    · rw [hm]; decide
 
 open Demo in
 /-- non-vacuity, fresh region with an EXISTING LC_CODE_SIGNATURE command: the old region (16 bytes at offset 136) is too
     small, the command at 104 is overwritten in place, the old region is replaced by 16392 bytes -/
 example : ∃ so, sign (fSigned 16) p0 = .ok so ∧ Regular (fSigned 16) so ∧ so.plan.m.loadCsStart = 104 ∧
     so.plan.po.sigStart = 136 ∧ so.plan.po.sigBufLen = 16392 := by
-  cases hso : sign (fSigned 16) p0 with
+  cases hso : signOrig (fSigned 16) p0 with
   | err e => have := sign_fOld_ok; rw [hso] at this; cases this
   | panic e => have := sign_fOld_ok; rw [hso] at this; cases this
   | diverge => have := sign_fOld_ok; rw [hso] at this; cases this
   | ok so =>
+    have hsn := signNew_of (fSigned 16) (mSigned 16) so hso scan_fOld scanNew_fOld (by decide +kernel) (by decide +kernel)
     obtain ⟨hm, F, HS⟩ := sign_fresh_facts (fSigned 16) p0 so (mSigned 16) hso scan_fOld (by decide +kernel)
     have e1 : so.plan.po.sigStart = 136 := by rw [F.sigStart]; decide +kernel
     have e2 : so.plan.po.sigBufLen = 16392 := by rw [F.sigBufLen]; decide +kernel
     have e3 : so.plan.po.newHeader.length = 120 := by rw [HS.len]; decide +kernel
-    refine ⟨so, rfl, ⟨⟨?_, ?_, ?_, ?_, ?_, ?_⟩, ?_⟩, by rw [hm]; rfl, e1, e2⟩
-    · rw [hm]; decide +kernel
+    refine ⟨so, hsn, ⟨⟨?_, ?_, ?_, ?_, ?_⟩, ?_⟩, by rw [hm]; rfl, e1, e2⟩
     · rw [hm]; decide +kernel
     · rw [hm]; decide +kernel
     · rw [hm]; decide +kernel
     · rw [hm, e3]; decide +kernel
     · rw [hm]; decide +kernel
-    · rw [e2]; decide
+    · rw [hm]; decide
 
 open Demo in
 /-- non-vacuity, reuse branch: the old region (16392 bytes at offset 136) is big enough, the header is not touched -/
 example : ∃ so, sign (fSigned 16392) p0 = .ok so ∧ Regular (fSigned 16392) so ∧
     so.plan.po.newHeader = (fSigned 16392).take 120 ∧ so.plan.po.sigStart = 136 ∧ so.plan.po.sigBufLen = 16392 := by
-  cases hso : sign (fSigned 16392) p0 with
+  cases hso : signOrig (fSigned 16392) p0 with
   | err e => have := sign_fReuse_ok; rw [hso] at this; cases this
   | panic e => have := sign_fReuse_ok; rw [hso] at this; cases this
   | diverge => have := sign_fReuse_ok; rw [hso] at this; cases this
   | ok so =>
+    have hsn := signNew_of (fSigned 16392) (mSigned 16392) so hso scan_fReuse scanNew_fReuse (by decide +kernel) (by decide +kernel)
     obtain ⟨hm, hpo⟩ := sign_reuse_facts (fSigned 16392) p0 so (mSigned 16392) hso scan_fReuse (by decide +kernel)
-    refine ⟨so, rfl, ⟨⟨?_, ?_, ?_, ?_, ?_, ?_⟩, ?_⟩, by rw [hpo]; rfl, by rw [hpo]; rfl, by rw [hpo]; rfl⟩
-    · rw [hm]; decide +kernel
+    refine ⟨so, hsn, ⟨⟨?_, ?_, ?_, ?_, ?_⟩, ?_⟩, by rw [hpo]; rfl, by rw [hpo]; rfl, by rw [hpo]; rfl⟩
     · rw [hm]; decide +kernel
     · rw [hm]; decide +kernel
     · rw [hm]; decide +kernel
     · rw [hm, hpo]; decide +kernel
     · rw [hm]; decide +kernel
-    · rw [hpo]; decide +kernel
+    · rw [hm]; decide +kernel
 
 open Demo in
 /-- **not_macho_sign_then_verify_full.**  The statement `macho_sign_then_verify_full` (C01_MachO.lean) is FALSE in the
@@ -174,15 +191,16 @@ open Demo in
     the real `debug/macho` parses LC_SYMTAB and relic verifies such a file.  It is NOT a finding about relic. -/
 theorem not_macho_sign_then_verify_full : ¬ macho_sign_then_verify_full := by
   intro H
-  cases hso : sign fSym p0 with
+  cases hso : signOrig fSym p0 with
   | err e => have := sign_fSym_ok; rw [hso] at this; cases this
   | panic e => have := sign_fSym_ok; rw [hso] at this; cases this
   | diverge => have := sign_fSym_ok; rw [hso] at this; cases this
   | ok so =>
+    have hsn := signNew_of fSym mSym so hso scan_fSym scanNew_fSym (by decide +kernel) (by decide +kernel)
     obtain ⟨hm, F, HS⟩ := sign_fresh_facts fSym p0 so mSym hso scan_fSym (by decide +kernel)
     have hpad : so.plan.po.padding = 0 := by rw [F.padding]; decide +kernel
     have hx : so.plan.po.newHeader.length = 144 := by rw [HS.len]; decide +kernel
-    obtain ⟨g, hsf, hloc, _⟩ := H fSym p0 so [] hso (by rw [hm]; decide) (by rw [hm]; decide) (Or.inl hpad) (Nat.zero_le _)
+    obtain ⟨g, hsf, hloc, _⟩ := H fSym p0 so [] hsn (by rw [hm]; decide) (by rw [hm]; decide) (Or.inl hpad) (Nat.zero_le _)
     obtain ⟨L, hw⟩ := fresh_signedFile fSym mSym _ so.plan.po [] F HS (by decide) (by decide) (by decide +kernel)
       (by rw [hx]; decide +kernel) (by decide +kernel) (Nat.zero_le _)
     rw [hw] at hsf
@@ -226,13 +244,14 @@ theorem not_macho_sign_then_verify_full : ¬ macho_sign_then_verify_full := by
     cases hloc
 
 open Demo in
-/-- **macho_slack_breaks** (the `noSlack` field is needed; DEFECT CANDIDATE in relic).  `Demo.fSlack` is the minimal
-    image with `sizeofcmds = 80` while its only command has 72 bytes.  All other fields of `Regular` hold; `Sign`
-    succeeds; it puts LC_CODE_SIGNATURE at `header + sizeofcmds = 112` and raises `ncmds` to 2 — and the parser, which
-    looks for the second command behind the first one (at 104), reads `cmdsize = 0` from the slack:
+/-- **macho_slack_breaks_orig** (finding F-MACHO-4, fixed in /repo bd2b0c4; about the tree BEFORE the fix: `signOrig`).
+    `Demo.fSlack` is the minimal image with `sizeofcmds = 80` while its only command has 72 bytes.  All fields of `Regular`
+    hold; the old `Sign` succeeded; it put LC_CODE_SIGNATURE at `header + sizeofcmds = 112` and raised `ncmds` to 2 — and the
+    parser, which looks for the second command behind the first one (at 104), reads `cmdsize = 0` from the slack:
     `locate` fails with "cmdsize" (`debug/macho`: "invalid command block size").  Replayed on the real
-    `debug/macho.NewFile` with the header this model predicts: same error. -/
-theorem macho_slack_breaks : ∃ so, sign fSlack p0 = .ok so ∧
+    `debug/macho.NewFile` with the header this model predicts: same error.  The current `scanFile` refuses the image:
+    `macho_slack_refused`. -/
+theorem macho_slack_breaks_orig : ∃ so, signOrig fSlack p0 = .ok so ∧
     newFile fSlack = .ok (so.plan.m.be, loadsOf fSlack) ∧
     (∀ e ∈ loadsOf fSlack, e.2.1 = 0x1d → e.1 = so.plan.m.loadCsStart ∧ e.2.2 = 16) ∧
     (rd32 so.plan.m.be fSlack so.plan.m.lePos = 0x19 ↔ so.plan.m.is64 = true) ∧
@@ -240,7 +259,7 @@ theorem macho_slack_breaks : ∃ so, sign fSlack p0 = .ok so ∧
     so.plan.m.codeSize + so.plan.m.sigLen ≤ fSlack.length ∧
     so.plan.po.sigBufLen ≤ 10000000 ∧
     ∃ g, signedFile fSlack so.plan.po [] = .ok g ∧ locate g = .err "cmdsize" := by
-  cases hso : sign fSlack p0 with
+  cases hso : signOrig fSlack p0 with
   | err e => have := sign_fSlack_ok; rw [hso] at this; cases this
   | panic e => have := sign_fSlack_ok; rw [hso] at this; cases this
   | diverge => have := sign_fSlack_ok; rw [hso] at this; cases this
@@ -297,5 +316,29 @@ theorem macho_slack_breaks : ∃ so, sign fSlack p0 = .ok so ∧
     exact locate_err_of_walk g false 0xfeedfacf "cmdsize"
       (by rw [readMagic_congr fSlack g (fun i hi => same i (by omega) (by omega) (nl i (by omega)))]; decide +kernel)
       (by omega) (by rw [hE, r20]; omega) (by rw [hE, r20, r16]; exact hw2)
+
+/-- **macho_slack_refused** (current tree, fix F-MACHO-4).  An image the old `scanFile` accepted, without an
+    LC_CODE_SIGNATURE command, whose load commands do not fill `sizeofcmds` — `scanFile`'s loop over the `ncmds` commands
+    ends before `header + sizeofcmds` — is refused by `scanFile`, hence by `Sign` with every parameter set: nothing is
+    written.  (An image that already HAS an LC_CODE_SIGNATURE command is not affected by the guard, and does not need to
+    be: that command is overwritten in place, no command is added — `noSlack` is only needed when `loadCsStart = 0`.) -/
+theorem macho_slack_refused (f : Bytes) (m : Markers) (p : SignParams) (h : scanOrig f = .ok m) (hcs : m.loadCsStart = 0)
+    (hsl : cmdEnd m.be f (rd32 m.be f 16) (hdrEndOf m.magic) < m.nextLc) :
+    scan f = .err "slack" ∧ sign f p = .err "slack" := by
+  have hr := scan_slack_refused f m h hcs (by omega)
+  exact ⟨hr, sign_of_scan_err f p _ hr⟩
+
+/-- with an LC_CODE_SIGNATURE command present the guard is inert: the scan is the old one -/
+theorem macho_slack_with_signature_accepted (f : Bytes) (m : Markers) (h : scanOrig f = .ok m) (hcs : m.loadCsStart ≠ 0) :
+    scan f = .ok m :=
+  (scan_ok_iff f m).mpr ⟨h, fun c => hcs c.2⟩
+
+open Demo in
+/-- hypotheses of `macho_slack_refused` satisfiable: the witness of F-MACHO-4 -/
+example : scanOrig fSlack = .ok mSlack ∧ mSlack.loadCsStart = 0 ∧
+    cmdEnd mSlack.be fSlack (rd32 mSlack.be fSlack 16) (hdrEndOf mSlack.magic) < mSlack.nextLc ∧
+    scan fSlack = .err "slack" ∧ sign fSlack p0 = .err "slack" :=
+  ⟨scan_fSlack, rfl, by decide +kernel, (macho_slack_refused fSlack mSlack p0 scan_fSlack rfl (by decide +kernel)).1,
+    (macho_slack_refused fSlack mSlack p0 scan_fSlack rfl (by decide +kernel)).2⟩
 
 end Relic.Props.C01
